@@ -9,6 +9,8 @@ os.environ.setdefault("PYTHONHASHSEED", "0")
 sys.path.insert(0, "/verif/harness")
 sys.path.insert(0, "/repo")
 sys.setrecursionlimit(10000)
+import warnings
+warnings.simplefilter("ignore", RuntimeWarning)
 
 
 def main():
